@@ -89,9 +89,12 @@ class World:
         self.rev = {}
         self.fs = None
         self.clock = SimClock()
+        self.listeners = {}
         self.stats = {}
         self.gc_count = 0
         World.current = self
+        from . import simfs
+        simfs.install(self)
         _install_hash()
         if not _gc_was_disabled:
             gc.disable()
@@ -185,6 +188,16 @@ class World:
         _uniq_mod.MOD_NAME_UID = 0
         _flat_mod.unique_number = 0
         _flat_mod.mod_name_uid = 0
+
+    def restart(self):
+        """Fault F12: the process exits.  Volatile state is gone, live netlists are gone, SimFS survives."""
+        self.handles = {}
+        self.order = []
+        self.rev = {}
+        self.listeners = {}
+        self.restore_process_state()
+        gc.collect()
+        self.count("fault.restart")
 
     # -- volatile state accessors used by oracles ---------------------------------
     @staticmethod
